@@ -160,6 +160,14 @@ def symptoms(r):
         # a batch larger than n, whatever else happened
         if any(e["ev"] == "deliver" and len(e["x"]) > cfg["n"] for e in r["ev"]):
             return ["C08", "C02"]
+    if k == "latest":
+        # when everything has come to rest the newest element received must have been passed on
+        end = [e for e in r["ev"] if e["ev"] == "end"]
+        arrived = [e["e"] for e in r["ev"] if e["ev"] == "emit_call"]
+        got = [x for e in r["ev"] if e["ev"] == "deliver" for x in e["x"]]
+        if end and end[-1].get("quiescent", True) and arrived and arrived[-1] not in got:
+            return ["C14"]
+        return []
     if cfg.get("faults") or k not in ("buffer", "delay", "rate_limit", "map_async", "partition", "timed_window"):
         return []
     end = [e for e in r["ev"] if e["ev"] == "end"]
